@@ -298,7 +298,9 @@ func (s *EncryptionSession) Out(prio bool) (
 		if prio {
 			return 0, 0, 0, nil, errors.New("prio sequence handler requested key rollover")
 		}
-		s.prioSeqHandler.Reset()
+		// The outgoing key changes: Restart the outgoing priority sequence only.
+		// The incoming priority sequence belongs to the incoming key.
+		s.prioSeqHandler.ResetOut()
 		if err := s.rolloverOutKey(); err != nil {
 			return 0, 0, 0, nil, fmt.Errorf("rollover in key: %w", err)
 		}
@@ -343,7 +345,9 @@ func (s *EncryptionSession) Check(seqNum uint32, prio bool) error {
 	// If this (authenticated) frame starts the next key epoch, roll over now.
 	s.lock.Lock()
 	if s.reglSeqHandler.RolloverRequired(seqNum) {
-		s.prioSeqHandler.Reset()
+		// The incoming key changes: Restart the incoming priority sequence only.
+		// The outgoing priority sequence belongs to the outgoing key.
+		s.prioSeqHandler.ResetIn()
 		if err := s.rolloverInKey(); err != nil {
 			s.lock.Unlock()
 			return fmt.Errorf("rollover in key: %w", err)
@@ -430,14 +434,33 @@ func (sh *SequenceHandler) RolloverIndicated(seqNum uint32) bool {
 	return sh.highest >= rolloverUpperBound && seqNum <= rolloverLowerBound
 }
 
-// Reset resets the sequence counters to zero.
-// This is only used for resetting the priority sequence,
-// when the regular triggered a key rollover.
+// Reset resets the sequence counters of both directions to zero.
+// This is used when new keys are set up for both directions.
 func (sh *SequenceHandler) Reset() {
 	sh.lock.Lock()
 	defer sh.lock.Unlock()
 
 	sh.highest = 0
+	sh.outSeq.Store(0)
+}
+
+// ResetIn resets the incoming sequence counter to zero.
+// This is only used for resetting the priority sequence,
+// when the regular sequence triggered a rollover of the incoming key.
+func (sh *SequenceHandler) ResetIn() {
+	sh.lock.Lock()
+	defer sh.lock.Unlock()
+
+	sh.highest = 0
+}
+
+// ResetOut resets the outgoing sequence counter to zero.
+// This is only used for resetting the priority sequence,
+// when the regular sequence triggered a rollover of the outgoing key.
+func (sh *SequenceHandler) ResetOut() {
+	sh.lock.Lock()
+	defer sh.lock.Unlock()
+
 	sh.outSeq.Store(0)
 }
 
